@@ -125,6 +125,17 @@ CLAIMED = {
              "signature-inspection prologue of add_handler is abstracted (production mode), relative_priority absent. "
              "Bounded parts are stated with their bounds in the evidence (bounded_checks).",
         ref="4.C01"),
+    "C02": dict(
+        text="QueuedEvent.wait/clear/is_empty proved as a typestate (free/held; double wait and clear-when-free raise, "
+             "clear wakes the sleeping dispatcher). _run_handlers_sequential checked on 2 registered handlers (each "
+             "may or may not register a wait): handlers run once each in order, never while an earlier wait is "
+             "outstanding, and the completion callback fires exactly once, last - including when the handlers "
+             "vanished before the task started. The wait-queue protocol obligation of post_queue (never forward a "
+             "held queue into a nested queue event) is proved at Mode.start. Relay/boolean rules: C01 _run_handlers.",
+        note="Trusted: pyvc encoding, z3, asyncio Event semantics, rely that holders eventually clear (liveness not "
+             "decided). _run_handlers_sequential is bounded (2 handlers) and not counted as proved. Queue/relay "
+             "config players and AsyncMode are not under contract.",
+        ref="4.C02"),
 }
 
 NA = {}
